@@ -1,5 +1,6 @@
 import CedarVerif.Lemmas.TCOps
 import CedarVerif.Lemmas.TCRemove
+import CedarVerif.Lemmas.TCUpsert
 import CedarVerif.Cedar.Eval
 /-
 C04 — Hierarchy membership equals parent-reachability after any store history.
@@ -204,6 +205,60 @@ theorem remove_inv (s : Store α) (us : List α) (hinv : Inv s) :
 example : (removeEntities .compute
     [(0, ({ parents := [1, 2], indirect := [9, 7] } : Node Nat)), (1, { parents := [9, 7], indirect := [] }),
      (2, { parents := [9], indirect := [] })] [1]).toOption.map (fun s => ancestors s 0) = some [2, 9] := by decide
+
+/-- full statement for `upsert_entities` (arbitrary batches, processed sequentially by the code) -/
+def UpsertInvFull (α : Type) [DecidableEq α] : Prop :=
+  ∀ (s : Store α) (es : List (α × Node α)), Inv s → PureBatch es →
+    (∀ s', upsertEntities .compute s es = .ok s' → Inv s' ∧ parentGraph s' = specUpsert (parentGraph s) es) ∧
+    (∀ e, upsertEntities .compute s es = .error e ↔ (e = .cycle ∧ ¬ Acyclic (specUpsert (parentGraph s) es)))
+
+/-- proved part of `UpsertInvFull`: batches of ONE entity. Overwriting an existing record (stale indirect
+    ancestors stripped from all descendants, alternative paths restored by the repair) or inserting a new
+    one: if the resulting parent graph is acyclic the operation is accepted, re-establishes `Inv` and
+    yields the spec's parent graph; it fails only with `cycle` and only if the resulting parent graph is
+    cyclic. MISSING: batches of several entities (intermediate stores are not closed; needs an invariant
+    like `RInv` of the remove proof), and "a cyclic result is always rejected". -/
+theorem upsert_inv_partial (s : Store α) (e : α × Node α) (hinv : Inv s) (hpure : e.2.indirect = []) :
+    (Acyclic (specUpsert (parentGraph s) [e]) →
+      ∃ s', upsertEntities .compute s [e] = .ok s' ∧ Inv s' ∧ parentGraph s' = specUpsert (parentGraph s) [e]) ∧
+    (∀ err, upsertEntities .compute s [e] = .error err →
+      err = .cycle ∧ ¬ Acyclic (specUpsert (parentGraph s) [e])) := by
+  have hp : PureBatch [e] := by
+    intro e' he'; simp only [List.mem_singleton] at he'; subst he'; exact hpure
+  cases hold : TC.get s e.1 with
+  | some old =>
+    have p4 := (upsert_single_pre s e hinv hpure old hold).2.2.2
+    constructor
+    · intro hac
+      exact upsert_single_ok s e hinv hpure old hold ((acyclic_pg _).mp (p4 ▸ hac))
+    · intro err h
+      obtain ⟨h1, x, hx⟩ := upsert_single_err s e hinv hpure old hold err h
+      exact ⟨h1, fun hac => (acyclic_pg _).mp (p4 ▸ hac) x hx⟩
+  | none =>
+    rw [upsert_single_new s e hold]
+    have hspec : specUpsert (parentGraph s) [e] = specAdd (parentGraph s) [e] := by
+      have : PGraph.get (parentGraph s) e.1 = none := by rw [pg_get]; simp [shape, hold]
+      simp [specUpsert, specAdd, this]
+    have hloop : addLoop s [] [e] = .ok (s ++ [e], tinsert e.1 []) := by
+      simp [addLoop, updateEntityMap, hold]
+    rw [hspec]
+    obtain ⟨a1, a2⟩ := add_inv_partial s [e] hinv hp
+    constructor
+    · intro hac; exact a1 _ hloop hac
+    · intro err h
+      rcases a2 err h with h' | ⟨h1, _, h3⟩
+      · rw [hloop] at h'; cases h'
+      · exact ⟨h1, h3⟩
+
+/-- non-vacuity: x → a → t, x → b → t, a → p; replacing `a` by a root keeps `t` for `x` and drops `p`;
+    replacing `t` by `t → x` is rejected -/
+example : (upsertEntities .compute
+    [(0, ({ parents := [1, 2], indirect := [9, 7] } : Node Nat)), (1, { parents := [9, 7], indirect := [] }),
+     (2, { parents := [9], indirect := [] })] [(1, { parents := [], indirect := [] })]).toOption.map
+       (fun s => ancestors s 0) = some [1, 2, 9] := by decide
+example : upsertEntities .compute
+    [(0, ({ parents := [1], indirect := [9] } : Node Nat)), (1, { parents := [9], indirect := [] }),
+     (9, { parents := [], indirect := [] })] [(9, { parents := [0], indirect := [] })] = .error .cycle := by rfl
 
 /-! ### `in` -/
 
